@@ -32,8 +32,10 @@ SVD-based correction has this property. It is a special case of the invariance o
 under orthogonal maps of the configuration (`hcorr_rot` of `geom_rotate`, see
 `corrColPermInv_of_rot`): a column rearrangement multiplies `Y_i`, `Z_i` by a permutation matrix
 on the right, which leaves the singular values and the ellipsoid membership test unchanged and only
-rearranges the right singular vectors; Mathlib has no packaged singular-value theory in which to
-state this for the real function, whose run-time behaviour is LAPACK's (cf. `geom_laws_partial`).
+rearranges the right singular vectors. That hypothesis is DISCHARGED for the mathematical
+SVD-based correction `corrMath` in `CEProofs/C10GeomSvd.lean` (`corrColPermInv_envSvd` and the
+`…_real` versions of the theorems below); what remains outside Lean is that LAPACK's
+floating-point SVD is the mathematical one (tied numerically, cf. `CEProofs/C12Spectral.lean`).
 Everything else is proved: the distance keys, the neighbour lists, every `ρ_i`, and the fact that
 the local configurations of the rearranged sample are exactly the rearranged configurations.
 No tie-freeness, guard or `k` hypothesis is needed for these three (the keys are *equal*, so even
